@@ -112,7 +112,7 @@ func (s String) Inspect() string {
 		default:
 			if unicode.IsGraphic(char) {
 				buffer.WriteRune(char)
-			} else if char>>8 == 0 {
+			} else if char < utf8.RuneSelf {
 				fmt.Fprintf(&buffer, `\x%02x`, char)
 			} else if char>>16 == 0 {
 				fmt.Fprintf(&buffer, `\u%04x`, char)
